@@ -2814,7 +2814,8 @@ define_struct_type(InterrogateType &itype, CPPStructType *cpptype,
         continue;
       }
       ElementIndex element_index = get_make_property((*di)->as_make_property(), cpptype, scope);
-      if (find(itype._elements.begin(), itype._elements.end(), element_index) == itype._elements.end()) {
+      if (element_index != 0 &&
+          find(itype._elements.begin(), itype._elements.end(), element_index) == itype._elements.end()) {
         itype._elements.push_back(element_index);
       }
 
@@ -2824,7 +2825,9 @@ define_struct_type(InterrogateType &itype, CPPStructType *cpptype,
         continue;
       }
       MakeSeqIndex make_seq_index = get_make_seq((*di)->as_make_seq(), cpptype);
-      itype._make_seqs.push_back(make_seq_index);
+      if (make_seq_index != 0) {
+        itype._make_seqs.push_back(make_seq_index);
+      }
     }
   }
 
